@@ -114,9 +114,10 @@ def pval_to_py(p):
         else:
             setattr(o, k, pval_to_py(v))
     for k, v in p["calls"]:
-        setattr(o, k, (lambda val: (lambda context, info, **args: val))(pval_to_py(v)))
+        # collision-free callables: (context, info) arrive positionally, field arguments of ANY name as keywords
+        setattr(o, k, (lambda val: (lambda *positional, **args: val))(pval_to_py(v)))
     for k, m in p["raises"]:
-        def raiser(context, info, _m=m, **args):
+        def raiser(*positional, _m=m, **args):
             raise ResolverError(_m)
         setattr(o, k, raiser)
     return o
